@@ -2,7 +2,7 @@
 
 use super::strfam::*;
 use super::*;
-use crate::devs::enumerate;
+use crate::devs::{dev, enumerate};
 use crate::harness::{Ctx, Obs};
 use crate::refsem::{self, Parsed};
 use crate::spec::*;
@@ -51,7 +51,14 @@ pub fn programs(tier: Tier) -> ProgramSet {
         resize: true,
     };
     let k = if tier == Tier::Quick { 2 } else { 3 };
-    let (specs, ex) = enumerate(&EnumSpec::base(3), "B3", &alphabet(3, &c), k, &domain);
+    let mut devs = alphabet(3, &c);
+    // a custom error type + function that counts its calls: it must run once per rejected input and never for an accepted one,
+    // through the map as through the match
+    devs.push(dev("parse_err_ty + parse_err_fn (counting)", &["perr"], |s| {
+        s.parse_err = true;
+        true
+    }));
+    let (specs, ex) = enumerate(&EnumSpec::base(3), "B3", &devs, k, &domain);
     let mut out = Vec::new();
     for e in specs {
         let source = render(&e.spec);
@@ -122,8 +129,7 @@ pub fn render(spec: &EnumSpec) -> String {
     }
     o.push_str(&render_vidx(spec, "E", "vidx_e"));
     o.push_str(&render_vidx(&p, "P", "vidx_p"));
-    o.push_str(
-        r#"fn obs_e<X: core::fmt::Debug>(r: Result<Result<E, X>, String>) -> vf_core::Obs {
+    let body = r#"fn obs_e<X: core::fmt::Debug>(r: Result<Result<E, X>, String>) -> vf_core::Obs {
     match r { Ok(Ok(v)) => vf_core::Obs::Ok(vidx_e(&v), format!("{:?}", v)), Ok(Err(e)) => vf_core::Obs::Err(format!("{:?}", e)), Err(m) => vf_core::Obs::Panic(m) }
 }
 fn obs_p<X: core::fmt::Debug>(r: Result<Result<P, X>, String>) -> vf_core::Obs {
@@ -135,9 +141,30 @@ pub fn run(ctx: &mut vf_core::Ctx) {
     let mut phf_try = |s: &str| obs_p(vf_core::guard(|| <P as core::convert::TryFrom<&str>>::try_from(s)));
     vf_core::props::c16::explore(ctx, &mut plain, &mut phf, &mut phf_try);
 }
-"#,
-    );
+"#;
+    // with a custom error function every observation also carries how often that function ran during the call
+    let body = if spec.parse_err {
+        body.replace("|s: &str| obs_e(", "|s: &str| vf_core::props::c16::counted(&mut || obs_e(")
+            .replace("|s: &str| obs_p(", "|s: &str| vf_core::props::c16::counted(&mut || obs_p(")
+            .replace("from_str(s)));", "from_str(s))));")
+            .replace("try_from(s)));", "try_from(s))));")
+    } else {
+        body.to_string()
+    };
+    o.push_str(&body);
     o
+}
+
+/// runs one parse call and appends the number of calls of the custom error function it caused
+pub fn counted(f: &mut dyn FnMut() -> Obs) -> Obs {
+    let before = crate::harness::my_err_calls();
+    let o = f();
+    let calls = crate::harness::my_err_calls() - before;
+    match o {
+        Obs::Ok(i, d) => Obs::Ok(i, format!("{} [f called {}x]", d, calls)),
+        Obs::Err(e) => Obs::Err(format!("{} [f called {}x]", e, calls)),
+        p => p,
+    }
 }
 
 pub fn explore(ctx: &mut Ctx, plain: &mut dyn FnMut(&str) -> Obs, phf: &mut dyn FnMut(&str) -> Obs, phf_try: &mut dyn FnMut(&str) -> Obs) {
@@ -150,6 +177,16 @@ pub fn explore(ctx: &mut Ctx, plain: &mut dyn FnMut(&str) -> Obs, phf: &mut dyn 
         ctx.transitions(3);
         let wp = refsem::parse(&spec, s);
         let want = expected_obs(&wp, &|| "VariantNotFound".to_string());
+        let want = if spec.parse_err {
+            // the function runs exactly once, and only for a rejected input
+            match want {
+                Obs::Ok(i, d) => Obs::Ok(i, format!("{} [f called 0x]", d)),
+                Obs::Err(_) => Obs::Err(format!("MyErr({:?}) [f called 1x]", s)),
+                p => p,
+            }
+        } else {
+            want
+        };
         let w = want.show();
         let a = plain(s);
         let b = phf(s);
